@@ -335,7 +335,15 @@ def _trial_group(tag, want):
 
 E.MODELS[ABS + ':CompletedTrials'] = _trial_group('CompletedTrials', COMPLETED)
 E.MODELS[ABS + ':ActiveTrials'] = _trial_group('ActiveTrials', ACTIVE)
-E.MODELS['vizier._src.pythia.policy:SuggestDecision'] = _opaque('SuggestDecision')
+def _suggest_decision(it, args, kw):
+    """pythia.SuggestDecision(suggestions, metadata=...): a plain record of its two fields"""
+    vals = dict(kw)
+    for nm, v in zip(('suggestions', 'metadata'), args):
+        vals[nm] = v
+    return Obj('opaque:SuggestDecision', {'suggestions': vals.get('suggestions'), 'metadata': vals.get('metadata')})
+
+
+E.MODELS['vizier._src.pythia.policy:SuggestDecision'] = _suggest_decision
 
 
 def _metadata_delta(it, args, kw):
@@ -1211,7 +1219,8 @@ def main(tier):
         chk.function(POLICY, q)
     run_group(chk, '_SerializableDesignerPolicyBase.suggest', tier,
               [(policy_entry('alive'), policy_post('alive'), 2), (policy_entry('restored'), policy_post('restored'), 3)], 'policy',
-              [((lambda nall: policy_entry('alive', nall, 8, 4)), policy_post('alive'))])
+              [((lambda nall: policy_entry('alive', nall, 8, 4)), policy_post('alive'))],
+              extra_payload=lambda run, model: {'zero_suggestions': hasattr(run, 'nsugg') and model.eval(run.nsugg, model_completion=True).as_long() == 0})
     run_group(chk, 'DesignerPolicy.suggest', tier, [(designer_policy_entry(), designer_policy_post, 1)], 'designer_policy',
               [((lambda nall: designer_policy_entry(nall)), designer_policy_post)])
 
